@@ -142,6 +142,7 @@ fn real_main() {
                 let kf = report::KnownFindings::load();
                 let mut run = report::Run::new("C19", tier, "versionx");
                 versionx::add(&mut run, &kf, tier);
+                versionx::chains(&mut run, &kf, tier);
                 run.cov("rule", serde_json::json!("all sequences up to the stated depth over the alphabet of compute calls (family x presented versions x starting index) and write / re-import / source growth, each executed from scratch on a real EagerVec; distinct = distinct (stored result, expected result) outcomes"));
                 run.finish()
             }
